@@ -204,7 +204,9 @@ func (k *Keeper) DeleteAccount(ctx sdk.Context, addr common.Address) error {
 	cosmosAddr := sdk.AccAddress(addr.Bytes())
 	acct := k.accountKeeper.GetAccount(ctx, cosmosAddr)
 	if acct == nil {
-		return nil
+		// no auth account to remove, but the address can still hold coins (a balance of the bank genesis,
+		// see GetAccount): the EVM has already paid them to the beneficiary, clear them here as well.
+		return k.SetBalance(ctx, addr, new(big.Int))
 	}
 
 	// NOTE: only Ethereum accounts (contracts) can be selfdestructed
